@@ -86,6 +86,7 @@ class FakeAMQP:
         self.deliveries: list = []  # (label, consumer_tag, queue, message_id, t)
         self.dead_lettered: list = []  # (queue, message_id, reason, t)
         self.acked_ids: list = []
+        self.precondition_failed: list = []  # (client, channel, delivery tag, action): double settlements
         self.keep_log = True
 
     def now(self):
@@ -232,6 +233,11 @@ class Chan:
 
     def settle(self, dtag, how, requeue=False, multiple=False):
         tags = [t for t in sorted(self.unacked) if t <= dtag] if multiple else [dtag]
+        if not multiple and dtag not in self.unacked:
+            # RabbitMQ: settling a delivery twice (or a tag it never issued) is a channel error
+            self.conn.srv.precondition_failed.append((self.conn.label, self.n, dtag, how))
+            self.conn.fail_channel(self.n, 406, f"PRECONDITION_FAILED - unknown delivery tag {dtag}", 60, {"ack": 80, "nack": 120, "reject": 90}[how])
+            return
         for t in tags:
             it = self.unacked.pop(t, None)
             if it is None:
@@ -304,6 +310,12 @@ class Conn:
                     await self.srv.gate(self.label, nm)
                 if self.on(ch, fr) == "close":
                     return
+
+    def fail_channel(self, chn, code, text, class_id, method_id):
+        ch = self.channels.pop(chn, None)
+        if ch is not None:
+            ch.requeue_all()
+        self.send(chn, spec.Channel.Close(reply_code=code, reply_text=text, class_id=class_id, method_id=method_id))
 
     def on(self, chn, fr):
         nm = getattr(fr, "name", "")
